@@ -46,6 +46,7 @@ def run(ctx):
             n_fn += 1
             _purity(ctx, fn, F)
             _determinism(ctx, fn, F)
+            _not_memoised(ctx, fn, F)
     # functions the dumpers reach in zoneinfo (zone-name selection): same purity/determinism obligations,
     # module-level state included (a cache keyed by offset makes a dump depend on what was dumped before)
     zmod = m.mod('zoneinfo')
@@ -69,6 +70,9 @@ def run(ctx):
     _closure(ctx, m)
     # transcoding keeps the version: both writers put the grid's own version in the header and thread it down
     from . import _zinc
+    # lossless ZINC leg: what the writer escapes, the reader un-escapes to the same text (clause shared with C08.D1)
+    for which in ('str', 'uri'):
+        _zinc.escape_pair(ctx, 'C07.D3', which)
     for modname in ('zincdumper', 'jsondumper'):
         _zinc.header_version(ctx, 'C07.D3', modname)
         _zinc.version_threading(ctx, 'C07.D3', modname)
@@ -98,6 +102,28 @@ class _Quiet(object):
 
     def floor(self, *a, **k):
         return None
+
+
+TEXT_ONLY = ('dump_str', 'dump_uri', 'dump_id', 'str_sub', 'uri_sub', 'ctrl_sub')
+
+
+def _not_memoised(ctx, fn, F):
+    """a dump function memoised on its argument answers for every value that is == to an earlier one: 1, 1.0 and True
+    are equal and hash alike, aware date-times compare by instant -- the text of a value would depend on what was
+    dumped before it"""
+    for d in fn.decorator_list:
+        dn = (norm(d.func) if isinstance(d, ast.Call) else norm(d)).split('.')[-1]
+        if dn in ('lru_cache', 'cache', 'memoize', 'memoized', 'cached'):
+            if fn.name in TEXT_ONLY:
+                ctx.ob('C07.D2', '%s is memoised on text arguments only (string equality is exact)' % fn.name, True,
+                       '%s:%d' % (F, fn.lineno))
+            else:
+                ctx.violation('C07.D2', '%s::%s' % (F, fn.name), '@' + norm(d),
+                              'dump a grid holding 1.0, then a grid holding 1 (or True; or the same instant in two zones): the '
+                              'values are == and hash alike, so the second is written with the cached text of the first -- the '
+                              'dump of a grid depends on what was dumped earlier in the process',
+                              '%s is memoised on its argument, but equal values of different kinds have different texts'
+                              % fn.name, file=F, line=fn.lineno, engine='E7')
 
 
 def _fresh_names(fn):
@@ -302,6 +328,8 @@ def _closure(ctx, m):
         fn, p, entries = J.extract_cascade(m)
         for e in entries:
             reader_kinds |= set(e.builds)
+        # idempotence of parse-then-dump: a time of day read from JSON must be the exact value written (no float leg)
+        J.time_fields_exact(ctx, 'C07.D3', entries, fn)
     except (Unsupported, AnalysisError) as e:
         ctx.error('C07.D4', 'reader kinds: %s' % e)
         return
